@@ -6,6 +6,7 @@ import (
 	"fmt"
 	"os"
 	"regexp"
+	"strconv"
 	"strings"
 	"time"
 )
@@ -102,7 +103,11 @@ func cmdVerify(args []string) {
 			bad++
 			continue
 		}
-		cfg := runCfg{workDir: *work, timeoutS: *timeout, seed: 0, needAgree: *agree, par: 6}
+		seed := 0
+		if v, err := strconv.Atoi(os.Getenv("VERIF_SEED")); err == nil {
+			seed = v
+		}
+		cfg := runCfg{workDir: *work, timeoutS: *timeout, seed: seed, needAgree: *agree, par: 6}
 		if re != nil {
 			cfg.filter = func(n string) bool { return re.MatchString(n) }
 		}
